@@ -331,10 +331,11 @@ def retrain_histories(ctx, sc_dir, budget, dist, seen):
     """Rulesets with a history: one ruleset name trained two or three times."""
     vio = []
     nontrivial = 0
-    n = ctx.scale(14, 200)
+    n = ctx.scale(24, 300)
     kinds = ["mixed", "big", "len_eq_ngram", "nonascii", "long", "single_len", "dup_heavy", "sparse_alphabet"]
     for i in range(n):
-        h = ol.gen_retraining(ctx.rng, kinds[i % len(kinds)] if i < 2 * len(kinds) else None)
+        h = ol.gen_retraining(ctx.rng, kinds[i % len(kinds)] if i < 2 * len(kinds) else None,
+                              variant="ngram" if i % 3 == 0 else None)
         small = ctx.rng.choice([0, 1, 3, 10, 50, 400])
         r = history_check(h["steps"], sc_dir, str(i), budget, dist, max_keyspace=small)
         if r is None:
@@ -353,7 +354,7 @@ def retrain_histories(ctx, sc_dir, budget, dist, seen):
                 nontrivial += 1
     # trainer.py itself (separate processes)
     items = []
-    for j in range(ctx.scale(3, 10)):
+    for j in range(ctx.scale(4, 12)):
         h = ol.gen_retraining(ctx.rng, ["mixed", "big", "long", "nonascii", "dup_heavy"][j % 5], cli=True)
         steps = [dict(c, alphabet_size=max(c["alphabet_size"], 2)) for c in h["steps"]]
         if ctx.rng.random() < 0.4:
@@ -423,7 +424,10 @@ def run(ctx):
             # a constant of a failed extractor plugin is missing: no correspondence case, the oracle still ran
             missing_consts.add(str(e))
 
+    import time
+    t_h = time.time()
     hv, hn = retrain_histories(ctx, sc_dir, budget, dist, seen)
+    dist["history_stage_seconds"] = round(time.time() - t_h, 1)
     vio += hv
     nontrivial += hn
     dist = dict(dist)
